@@ -194,6 +194,12 @@ func makeMaterial(r *rand.Rand, seed int64) (*material, error) {
 			return nil, err
 		}
 		m.x509s = append(m.x509s, crt)
+		// the same certificate with a negative serial number (legal DER; the served agent hands over its bytes)
+		if i < 3 {
+			if nd, ok := core.NegativeSerialDER(der); ok {
+				m.x509s = append(m.x509s, &x509.Certificate{Raw: nd})
+			}
+		}
 	}
 	return m, nil
 }
